@@ -33,7 +33,8 @@ ASSUMPTIONS = [
 PLAIN = c01.SAFE_TYPES + (tuple, complex)
 CANARY_ONLY = ["canary_imported.func", "canary_imported.Obj", "canary_imported.Plain", "canary_imported.ListSub",
                "canary_imported.VALUE", "canary_imported", "canary_imported.INSTANCE", "len", "int", "dict",
-               "collections.OrderedDict", "canary_imported.missing", ""]
+               "collections.OrderedDict", "canary_imported.missing", "", "canary_imported.GENLIKE", "canary_imported.CALLABLE",
+               "canary_imported.ITERLIKE"]
 
 
 def loader_legs():
@@ -114,6 +115,14 @@ def eval_doc(case, preload=False):
                 cl.add("object-construction-tag:dispatched")
             if not cons and rest.startswith("name:"):
                 cl.add("name-tag:dispatched")
+    if any((not cons) and tag.startswith("!app-d") for ctx, cons, tag in positions):
+        # the application's own constructor (registered on the default loaders by the warm-up) builds that node without
+        # looking at its children: what lies below it is not dispatched
+        must_reject = False
+        cl.add("application-default-loader-tag-in-document")
+    gen_named = any((not cons) and tag == safety.PY + "name:canary_imported.NATIVE_GEN" for ctx, cons, tag in positions)
+    if gen_named:
+        cl.add("name-tag:resolves-to-generator-object")
     if _UNIMPORTED_EMPTY.search(text):
         cl.add("name-or-module-tag:unimported-module:empty-value")
     if preload:
@@ -127,7 +136,7 @@ def eval_doc(case, preload=False):
     failures = []
     evals = 0
     mon = c01.get_monitor()
-    allowed_ids = module_attr_ids()
+    allowed_ids = module_attr_ids() | {id(c01.APP_D_VALUE)}     # built by the application's own default-loader constructors
     for lname, L in loader_legs():
         evals += 1
         exc = None
@@ -142,6 +151,13 @@ def eval_doc(case, preload=False):
                 exc = e
             except Exception as e:
                 exc = e
+        if gen_named:
+            # known finding: a python/name tag that resolves to an existing *generator object* is mistaken by construct_object
+            # for a two-step constructor and advanced; these effects are keyed apart, every other effect is judged as usual
+            adv = [p for p in mon.problems if "_native_gen" in p or "native-gen-" in p]
+            if adv:
+                failures.append(Failure("generator-object-advanced:%s" % lname, "%s\ntext=%r" % (adv[:3], text[:300])))
+                mon.problems = [p for p in mon.problems if p not in adv]
         for k in mon.keys():
             failures.append(Failure("effect:%s:%s" % (lname, k), "%s\ntext=%r" % (mon.problems[:4], text[:300])))
         mon.problems = []
@@ -149,7 +165,7 @@ def eval_doc(case, preload=False):
             cl.add("outcome:%s" % ("YAMLError" if isinstance(exc, yaml.YAMLError) else type(exc).__name__))
             continue
         cl.add("outcome:loaded")
-        bad = walk_full_result(result, allowed_ids)
+        bad = walk_full_result(result, allowed_ids | {id(mon.canary.NATIVE_GEN)})
         if bad:
             failures.append(Failure("constructed-object-in-result:%s" % lname, "%s\ntext=%r" % (bad, text[:300])))
         if must_reject:
@@ -157,6 +173,31 @@ def eval_doc(case, preload=False):
                                     "tags %r accepted; result=%.100r\ntext=%r" % (dispatched[:3], result, text[:300])))
     return Eval(failures, sorted(cl), nontrivial=bool({"object-construction-tag:dispatched", "name-tag:dispatched"} & cl),
                 ident=text, evals=evals, sample={"text": text[:300]})
+
+
+def known_class(arm, case, key):
+    if key.startswith("generator-object-advanced:"):
+        return "name-tag-resolving-to-generator-object-advances-it"
+    return None
+
+
+def pinned_known(key, rec):
+    import yaml
+    if key == "name-tag-resolving-to-generator-object-advances-it":
+        safety.install()
+        import canary_imported
+        canary_imported.reset()
+        del canary_imported.CALLS[:]
+        try:
+            r = yaml.full_load("!!python/name:canary_imported.NATIVE_GEN ''")
+        except yaml.YAMLError:
+            return False
+        finally:
+            calls = list(canary_imported.CALLS)
+            del canary_imported.CALLS[:]
+            canary_imported.reset()
+        return r == "first" and bool(calls)
+    return True
 
 
 def eval_preloaded(case):
@@ -209,11 +250,11 @@ def eval_static(case):
     n = 0
     for name, cls in classes:
         n += 1
-        got = set(cls.yaml_constructors) - {"!c04-c"}
+        got = set(cls.yaml_constructors) - {"!c04-c", "!app-d"}
         if got != want:
             failures.append(Failure("static:constructor-table:%s" % name, "extra=%r missing=%r" % (
                 sorted(map(str, got - want)), sorted(map(str, want - got)))))
-        if set(cls.yaml_multi_constructors) - {"!c04-app/"} != {safety.PY + "name:"}:
+        if set(cls.yaml_multi_constructors) - {"!c04-app/", "!app-dm/"} != {safety.PY + "name:"}:
             failures.append(Failure("static:multi-constructor-table:%s" % name, repr(sorted(map(str, cls.yaml_multi_constructors)))))
         if C.UnsafeConstructor in cls.__mro__:
             failures.append(Failure("static:full-loader-composed-with-unsafe-constructor:%s" % name, repr(cls.__mro__)))
